@@ -349,13 +349,19 @@ func checkC19(cx *Ctx, r *Report) {
 		}
 		r.Check(nOwn == 0, "R-VFG", "IssuerFromHost:no-headers", w.FnPos(ih), "passes a configuration without forwarding headers", "IssuerFromHost configures forwarding headers: the issuer can then be taken from a client-supplied header")
 	}
-	cx.checkIssuerSchemeFlag(r)
-	cx.checkDynamicIssuerPaths(r)
-	cx.checkIssuerComposition(r)
+	// the same facts read off the composition itself, wherever its pieces are computed (scheme and path suffix in
+	// helpers of their own, prepared once per configuration, ...): when that reading succeeds the rules that are
+	// written for the dynamicIssuer(host, path, flag) shape are not needed
+	generic := cx.checkDerivedIssuerGeneric(r)
+	if !generic {
+		cx.checkIssuerSchemeFlag(r)
+		cx.checkDynamicIssuerPaths(r)
+		cx.checkIssuerComposition(r)
+	}
 	cx.checkHeaderOrder(r)
 	cx.checkIssuerMiddlewareInstalled(r)
 	// scheme chosen by allowInsecure alone; leading slash rule
-	if di := w.Func("provider.dynamicIssuer"); di != nil {
+	if di := w.Func("provider.dynamicIssuer"); di != nil && !generic {
 		aps, ok := fx.atomPaths(di, 256)
 		bad := ""
 		if !ok {
@@ -391,10 +397,169 @@ func checkC19(cx *Ctx, r *Report) {
 			}
 		}
 		r.checkSources("R-VFG", "dynamicIssuer:sources", w.FnPos(di), dl, []string{"const:*", "param:provider.dynamicIssuer/#0", "param:provider.dynamicIssuer/#1"}, []string{"const:https", "const:http", "param:provider.dynamicIssuer/#0", "param:provider.dynamicIssuer/#1"}, false)
-	} else {
+	} else if !generic {
 		r.Fail("R-GUARD", "dynamicIssuer", "", "anchor not found")
 	}
 	r.Min("R-VFG", 5)
+}
+
+// checkDerivedIssuerGeneric: every value the per-request issuer closure returns is
+//     S(flag) + "://" + host + P(path)
+// where S is a function of one bool that returns "http" exactly when it is true and "https" otherwise, flag is the
+// insecure flag the factory closure was called with, host is the first forwarded host on a path that found one and the
+// request's Host on a path that found none, P is a function of one string that returns it unchanged when it is empty or
+// starts with "/" and "/" + it otherwise, and path is the configured path. Returns false (recording nothing) when the
+// composition is not of this shape - the rules written for dynamicIssuer(host, path, flag) then decide.
+func (cx *Ctx) checkDerivedIssuerGeneric(r *Report) bool {
+	w, fx := cx.W, cx.Fx
+	cl := w.Func("provider.issuerFromForwardedOrHost$1$1")
+	vf := cx.vflow("provider.issuerFromForwardedOrHost")
+	if cl == nil || vf == nil {
+		return false
+	}
+	fwd := `ext:httpforwarded.ParseParameter("host")#0[]`
+	isSchemeFn := func(f *ssa.Function) bool {
+		if f == nil || f.Blocks == nil || len(f.Params) != 1 || f.Signature.Results().Len() != 1 {
+			return false
+		}
+		aps, ok := fx.atomPaths(f, 16)
+		if !ok || len(aps) != 2 {
+			return false
+		}
+		seen := map[string]bool{}
+		for i := range aps {
+			p := &aps[i]
+			k, isK := constString(fx.retVal(p, 0))
+			if !isK || len(p.Atoms) != 1 || p.Atoms[0].Op != "TRUE" || stripNot(p.Atoms[0].Cond) != ssa.Value(f.Params[0]) {
+				return false
+			}
+			if k == "http" && !p.Atoms[0].Neg || k == "https" && p.Atoms[0].Neg {
+				seen[k] = true
+			} else {
+				return false
+			}
+		}
+		return seen["http"] && seen["https"]
+	}
+	isPathFn := func(f *ssa.Function) bool {
+		if f == nil || f.Blocks == nil || len(f.Params) != 1 || f.Signature.Results().Len() != 1 {
+			return false
+		}
+		aps, ok := fx.atomPaths(f, 16)
+		if !ok || len(aps) == 0 {
+			return false
+		}
+		sawSlash, sawPlain := false, false
+		for i := range aps {
+			p := &aps[i]
+			rv := fx.retVal(p, 0)
+			empty, nonEmpty, hasPre, noPre := false, false, false, false
+			for _, a := range p.Atoms {
+				switch {
+				case a.Op == "EMPTY":
+					if a.Neg {
+						nonEmpty = true
+					} else {
+						empty = true
+					}
+				case a.Op == "LT" && strings.Contains(a.String(), "len("): // len(path) > 0
+					nonEmpty = nonEmpty || a.Neg == false && strings.HasPrefix(a.A, "const:0") || a.Neg && strings.HasPrefix(a.B, "const:0")
+				case strings.HasPrefix(a.Op, "CALL:strings.HasPrefix") && strings.Contains(a.String(), "const:/"):
+					if a.Neg {
+						noPre = true
+					} else {
+						hasPre = true
+					}
+				default:
+					return false
+				}
+			}
+			if rv == ssa.Value(f.Params[0]) {
+				if !(empty || hasPre) {
+					return false
+				}
+				sawPlain = true
+				continue
+			}
+			parts := mergeLits(cx.strParts(rv))
+			if len(parts) == 2 && parts[0].IsLit && parts[0].Lit == "/" && parts[1].Val == ssa.Value(f.Params[0]) && nonEmpty && noPre {
+				sawSlash = true
+				continue
+			}
+			return false
+		}
+		return sawSlash && sawPlain
+	}
+	callOf := func(v ssa.Value) (*ssa.Function, ssa.Value) {
+		c, ok := v.(*ssa.Call)
+		if !ok || len(c.Call.Args) != 1 {
+			return nil, nil
+		}
+		return calleeOf(c), c.Call.Args[0]
+	}
+	onlyLabel := func(v ssa.Value, want string) bool {
+		ls := vf.Labels(v).leaves()
+		return len(ls) == 1 && ls[0] == want
+	}
+	nAlt, sawFwd, sawHost := 0, false, false
+	type verdict struct{ key, pos string }
+	var oks []verdict
+	for _, ret := range returnsOf(cl) {
+		if len(ret.Results) != 1 {
+			return false
+		}
+		for _, alt := range cx.strPartAlts(ret.Results[0], ret) {
+			parts := mergeLits(alt.Parts)
+			if len(parts) != 4 || parts[0].IsLit || !parts[1].IsLit || parts[1].Lit != "://" || parts[2].IsLit || parts[3].IsLit {
+				return false
+			}
+			sf, sarg := callOf(parts[0].Val)
+			pf, parg := callOf(parts[3].Val)
+			if !isSchemeFn(sf) || !isPathFn(pf) {
+				return false
+			}
+			if !onlyLabel(sarg, "param:provider.issuerFromForwardedOrHost$1/#0") || !onlyLabel(parg, "param:provider.issuerFromForwardedOrHost/#0") {
+				return false
+			}
+			fromFwd, fromHost := false, false
+			for _, l := range vf.Labels(parts[2].Val).leaves() {
+				switch {
+				case l == fwd:
+					fromFwd = true
+				case strings.HasSuffix(l, "/#0.Host"):
+					fromHost = true
+				case l == "const:" || l == "const:zero":
+				default:
+					return false
+				}
+			}
+			found, notFound := false, false
+			for _, a := range append(append([]Atom{}, alt.Atoms...), fx.AtomsAt(ret)...) {
+				if strings.Contains(a.A, "hostFromForwarded#1") || strings.Contains(a.String(), "hostFromForwarded") {
+					if a.Neg {
+						notFound = true
+					} else {
+						found = true
+					}
+				}
+			}
+			if fromFwd && !found || fromHost && !fromFwd && !notFound || fromFwd && fromHost {
+				return false
+			}
+			sawFwd = sawFwd || fromFwd
+			sawHost = sawHost || fromHost
+			nAlt++
+			oks = append(oks, verdict{"derived-issuer:composition@" + w.InstrPos(ret) + alt.Tag, w.InstrPos(ret)})
+		}
+	}
+	if nAlt < 2 || !sawFwd || !sawHost {
+		return false
+	}
+	for _, v := range oks {
+		r.Ok("R-VFG", v.key, v.pos, "scheme(flag) + :// + host (forwarded if found, else the request's) + path suffix(configured path), scheme and suffix computed by functions of the flag / the path alone")
+	}
+	r.Ok("R-VFG", "derived-issuer:composition#sites", "", fmt.Sprintf("%d alternatives of the composition", nAlt))
+	return true
 }
 
 // checkIssuerSchemeFlag: the flag that selects the scheme of a derived issuer is the configured one, unchanged, at
